@@ -121,6 +121,7 @@ SecpSMT.bitsumf_eq SecpSMT
 SecpSMT.bits_total SecpSMT
 SecpSMT.add_neg_cancel SecpSMT
 SecpSMT.ninv_mul SecpSMT
+SecpSMT.smul_gzero SecpSMT
 SecpSMT.sswu_on_curve SecpSMT2
 SecpSMT.iso_valid SecpSMT2
 SecpSMT.iso_hom_chord SecpSMT3
